@@ -71,6 +71,9 @@ def extract_json(body, schema):
     """Extract JSON from a body and validate with the provided schema."""
     try:
         data = jsonutils.loads(body)
+        # An escaped lone surrogate (e.g. "\ud800") is accepted by the JSON
+        # parser but is not text that can be stored or sent back.
+        jsonutils.dumps(data, ensure_ascii=False).encode('utf-8')
     except (ValueError, RecursionError) as exc:
         raise webob.exc.HTTPBadRequest(
             'Malformed JSON: %(error)s' % {'error': exc},
